@@ -80,9 +80,15 @@ func MembershipWire() {
 	n := 1 + rt.Choose("n", rt.Param("N", 3))
 	l := build(n)
 	e := rt.Choose("e", n)
-	q := e + rt.Choose("q", n-e)
+	// the queried version: any version from e on — also one beyond the current version, which
+	// the server accepts and answers for its current version
+	q := e + rt.Choose("q", n-e+2)
 	mp, err := l.B.QueryDigestMembershipConsistency(l.Digests[e], uint64(q))
 	rt.Assume(err == nil)
+	if q > n-1 {
+		rt.Reach("queried-version-beyond-the-log")
+		q = n - 1 // the snapshot the answer can be checked against is the current one
+	}
 	mr := protocol.ToMembershipResult([]byte("event"), mp)
 	wire := &protocol.MembershipResult{
 		Exists: mr.Exists, Hyper: copyDigestMap(mr.Hyper), History: copyDigestMap(mr.History),
